@@ -218,7 +218,7 @@ pub fn run(ctx: &RunCtx) -> i32 {
     };
     let ops: Vec<&'static str> = OPS.iter().map(|o| o.name).collect();
     let cfgs = LoopCfg::matrix();
-    let reps = ctx.tier.sz(4, 60);
+    let reps = ctx.tier.sz(5, 1500);
     let n_jobs = ops.len() as u64;
     let mut total = par_run(ctx.workers, n_jobs, |j, r| {
         let rt = new_runtime();
@@ -229,9 +229,9 @@ pub fn run(ctx: &RunCtx) -> i32 {
         }
         for (ci, cfg) in cfgs.iter().enumerate() {
             // quick: every configuration sees minimal + one other pattern; thorough: all x reps
-            let n = if ctx.tier == Tier::Quick { 2 } else { reps };
+            let n = reps;
             for i in 0..n {
-                let pidx = if ctx.tier == Tier::Quick { if i == 0 { 0 } else { 1 + (ci as u64 + ctx.seed) % 3 } } else { i };
+                let pidx = i;
                 judge_looped(&rt, r, op, cfg, derive_seed(ctx.seed, op, (ci as u64) << 16 | i), pidx);
             }
         }
@@ -246,7 +246,7 @@ pub fn run(ctx: &RunCtx) -> i32 {
     });
     total.note(format!("S3 trait has {} operations; model operations without a trait method: {:?}", ops.len(), MODEL_ONLY_OPS));
     let routes = model_routes();
-    let n_noop = ctx.tier.sz(20_000, 1_000_000);
+    let n_noop = ctx.tier.sz(200_000, 40_000_000);
     let per = 2000u64;
     let rep = par_run(ctx.workers, n_noop.div_ceil(per), |j, r| {
         let rt = new_runtime();
